@@ -1548,7 +1548,7 @@ func (fi *FuncInfo) proveLE0(goal Lin, conds []Cond, extra []Fact, hyp map[strin
 	}
 	// every outermost query gets a fixed budget of prover steps
 	if fi.nested == 0 {
-		fi.budget = 4000
+		fi.budget = proverBudget
 		entailBudget = 400000
 	}
 	fi.nested++
@@ -1694,7 +1694,11 @@ func (fi *FuncInfo) proveLE1(goal Lin, conds []Cond, extra []Fact, hyp map[strin
 			rest := goal.sub(f.L)
 			hasPhi := false
 			for a := range rest.t {
-				if _, ok := av[a].(*ssa.Phi); ok {
+				name := a
+				if strings.HasPrefix(name, "len(") && strings.HasSuffix(name, ")") {
+					name = name[4 : len(name)-1]
+				}
+				if _, ok := av[name].(*ssa.Phi); ok {
 					if _, inGoal := goal.t[a]; !inGoal {
 						hasPhi = true
 					}
@@ -2136,14 +2140,26 @@ func (fi *FuncInfo) proveFlat(goal Lin, conds []Cond, extra []Fact) bool {
 	saved := entailBudget
 	entailBudget = 200000
 	defer func() { entailBudget = saved }()
-	for _, f := range facts {
-		if f.Op != NE {
-			continue
+	// NE tightening to a fixpoint: len ≠ 0, len ≠ 1, … with len ≥ 0 gives len ≥ 8
+	used := map[int]bool{}
+	for round := 0; round < 12; round++ {
+		changed := false
+		for i, f := range facts {
+			if f.Op != NE || used[i] {
+				continue
+			}
+			if entails(facts, f.L.scale(-1), 2) {
+				facts = append(facts, Fact{f.L.scale(-1).addc(1), LE})
+				used[i] = true
+				changed = true
+			} else if entails(facts, f.L, 2) {
+				facts = append(facts, Fact{f.L.addc(1), LE})
+				used[i] = true
+				changed = true
+			}
 		}
-		if entails(facts, f.L.scale(-1), 2) {
-			facts = append(facts, Fact{f.L.scale(-1).addc(1), LE})
-		} else if entails(facts, f.L, 2) {
-			facts = append(facts, Fact{f.L.addc(1), LE})
+		if !changed {
+			break
 		}
 	}
 	return entails(facts, goal, 4)
@@ -2228,4 +2244,98 @@ func (fi *FuncInfo) axioms(atom string) []Fact {
 		return nil
 	}
 	return axiomFacts(atom)
+}
+
+var proverBudget = func() int {
+	if v := os.Getenv("LZBUDGET"); v != "" {
+		var n int
+		fmt.Sscanf(v, "%d", &n)
+		if n > 0 {
+			return n
+		}
+	}
+	return 4000
+}()
+
+// proveByCases proves goal ≤ 0 at block `at` by splitting every merge phi
+// (two or more incoming edges, not a loop header, defined in a block that
+// dominates `at`) that occurs in the goal or — transitively — in the facts,
+// into its incoming edges: each case adds the edge's conditions and the
+// equality phi = incoming value (sibling phis take the same edge) and must be
+// entailed (or be contradictory) by the cheap prover. This is the path-wise
+// counterpart of proveLE's phi split for phis that only occur in conditions
+// (nested min/max clamps).
+func (fi *FuncInfo) proveByCases(goal Lin, at *ssa.BasicBlock, extra []Fact) bool {
+	isHeader := func(b *ssa.BasicBlock) bool {
+		for _, lp := range fi.loops {
+			if lp.Header == b {
+				return true
+			}
+		}
+		return false
+	}
+	av := fi.atomValues()
+	type cs struct {
+		conds  []Cond
+		eqs    []Fact
+		chosen map[*ssa.BasicBlock]bool
+	}
+	work := []cs{{conds: fi.condsAt(at), chosen: map[*ssa.BasicBlock]bool{}}}
+	nCases := 0
+	for len(work) > 0 {
+		c := work[len(work)-1]
+		work = work[:len(work)-1]
+		nCases++
+		if nCases > 300 {
+			return false
+		}
+		ex := append(append([]Fact{}, extra...), c.eqs...)
+		if fi.proveFlat(goal, c.conds, ex) || fi.proveFlat(linConst(1), c.conds, ex) {
+			continue
+		}
+		// pick a merge phi mentioned by the goal or the facts
+		atoms := map[string]bool{}
+		for a := range goal.t {
+			atoms[a] = true
+		}
+		for _, f := range append(fi.factsOf(c.conds), ex...) {
+			for a := range f.L.t {
+				atoms[a] = true
+			}
+		}
+		var names []string
+		for a := range atoms {
+			names = append(names, a)
+		}
+		sort.Strings(names)
+		var pick *ssa.Phi
+		for _, a := range names {
+			ph, ok := av[a].(*ssa.Phi)
+			if !ok || isHeader(ph.Block()) || c.chosen[ph.Block()] || !(ph.Block() == at || ph.Block().Dominates(at)) {
+				continue
+			}
+			pick = ph
+			break
+		}
+		if pick == nil || len(c.chosen) >= 8 {
+			return false
+		}
+		for k := range pick.Edges {
+			pred := pick.Block().Preds[k]
+			n := cs{chosen: map[*ssa.BasicBlock]bool{}}
+			for b := range c.chosen {
+				n.chosen[b] = true
+			}
+			n.chosen[pick.Block()] = true
+			n.conds = append(append([]Cond{}, c.conds...), fi.edgeConds(pred, pick.Block())...)
+			n.eqs = append([]Fact{}, c.eqs...)
+			for _, in := range pick.Block().Instrs {
+				if sib, isPhi := in.(*ssa.Phi); isPhi && isIntType(sib.Type()) {
+					n.eqs = append(n.eqs, Fact{fi.lin(sib).sub(fi.lin(sib.Edges[k])), EQ})
+				}
+			}
+			work = append(work, n)
+		}
+	}
+	return true
 }
